@@ -253,7 +253,9 @@ def build_ppt(seed: int, feature: str | None = None, twin: bool = False):
         placement = [fslide, fslide]
     blips = []
     for i, s in enumerate(placement):
-        b = _blip(prng.choice(["png", "jpeg", "bmp"]), prng.randint(2, 40), prng.randint(2, 40), prng.randrange(1 << 16))
+        # (the last picture of a deck is always a DIB blip, so that every deck with pictures exercises the DIB -> BMP re-wrapping)
+        codec = "bmp" if i == len(placement) - 1 else prng.choice(["png", "jpeg", "bmp"])
+        b = _blip(codec, prng.randint(2, 40), prng.randint(2, 40), prng.randrange(1 << 16))
         blips.append(b)
         slides[s]["pics"].append(len(blips))
         exp.images.append({"sha": b["sha"], "ctype": b["ctype"], "w": b["w"], "h": b["h"], "unit": s + 1})
